@@ -124,7 +124,10 @@ func execute(t *testing.T, sc *Scenario, tier string, params any, ch *Chooser, s
 				msg := fmt.Sprint(v)
 				if strings.Contains(msg, "deadlock") {
 					res.Leaked = true
-					res.Notes = map[string]string{"bubble": msg}
+					if res.Notes == nil {
+						res.Notes = map[string]string{}
+					}
+					res.Notes["bubble"] = msg
 				} else {
 					res.Panic = msg + "\n" + string(debug.Stack())
 				}
@@ -164,7 +167,15 @@ func execute(t *testing.T, sc *Scenario, tier string, params any, ch *Chooser, s
 		if len(sim.Panics) > 0 && res.Violation == "" {
 			res.Panic = sim.Panics[0]
 		}
-		if sim.Overrun() && res.Violation == "" {
+		if sim.Overrun() && !sc.BudgetIsVerdict {
+			// resource guard, not an oracle: whatever the scenario concluded from a run that was
+			// cut short is void
+			res.Violation, res.Signature = "", ""
+			if res.Probes == nil {
+				res.Probes = map[string]int{}
+			}
+			res.Probes["run-abandoned-at-budget"]++
+		} else if sim.Overrun() && res.Violation == "" {
 			res.Signature = "livelock"
 			if tag := res.Notes["proto"]; tag != "" {
 				res.Signature += ":" + tag
